@@ -436,7 +436,7 @@ def main(argv=None):
 
 
 def save_replay(prop, subname, case, msg):
-    d = os.path.join(VERIF, "replays")
+    d = os.environ.get("VERIF_REPLAY_DIR") or os.path.join(VERIF, "replays")
     os.makedirs(d, exist_ok=True)
     h = case_hash(dict(sub=subname, case=case))
     path = os.path.join(d, "%s-%s.json" % (prop, h))
@@ -446,7 +446,7 @@ def save_replay(prop, subname, case, msg):
 
 
 def write_evidence(prop, tier, seed, mod, cov, wall, nviol):
-    d = os.path.join(VERIF, "evidence")
+    d = os.environ.get("VERIF_EVIDENCE_DIR") or os.path.join(VERIF, "evidence")
     os.makedirs(d, exist_ok=True)
     ev = dict(property_id=prop, tier=tier, seed=int(seed), level=getattr(mod, "LEVEL", "exploration"),
               coverage=cov, assumptions=getattr(mod, "ASSUMPTIONS", []), wall_s=round(wall, 2), violations=int(nviol))
